@@ -244,6 +244,80 @@ func applyKey(old, new *etree.Document, ops []patchOp, why string) string {
 	return "apply:" + cause + ":" + strings.SplitN(why, " ", 2)[0]
 }
 
+// expandS lists the (start, duration) pairs of the S children of a SegmentTimeline.
+func expandS(stl *etree.Element) ([][2]int64, bool) {
+	var out [][2]int64
+	var next int64
+	for _, s := range stl.ChildElements() {
+		if s.Tag != "S" {
+			return nil, false
+		}
+		var t, d, r int64
+		t = next
+		if v := s.SelectAttrValue("t", ""); v != "" {
+			if _, err := fmt.Sscan(v, &t); err != nil {
+				return nil, false
+			}
+		}
+		if _, err := fmt.Sscan(s.SelectAttrValue("d", ""), &d); err != nil {
+			return nil, false
+		}
+		if v := s.SelectAttrValue("r", ""); v != "" {
+			if _, err := fmt.Sscan(v, &r); err != nil || r < 0 {
+				return nil, false
+			}
+		}
+		for k := int64(0); k <= r; k++ {
+			out = append(out, [2]int64{t, d})
+			t += d
+		}
+		next = t
+	}
+	return out, true
+}
+
+func collectTag(e *etree.Element, tag string, out *[]*etree.Element) {
+	if e.Tag == tag {
+		*out = append(*out, e)
+	}
+	for _, c := range e.ChildElements() {
+		collectTag(c, tag, out)
+	}
+}
+
+// windowStartOnly: b differs from a solely by segments missing at the beginning of the
+// SegmentTimelines (and the startNumber that goes with it).
+func windowStartOnly(a, b *etree.Element) bool {
+	x, y := a.Copy(), b.Copy()
+	var sa, sb []*etree.Element
+	collectTag(x, "SegmentTimeline", &sa)
+	collectTag(y, "SegmentTimeline", &sb)
+	if len(sa) != len(sb) {
+		return false
+	}
+	for i := range sa {
+		la, ok1 := expandS(sa[i])
+		lb, ok2 := expandS(sb[i])
+		if !ok1 || !ok2 || len(lb) > len(la) {
+			return false
+		}
+		off := len(la) - len(lb)
+		for k := range lb {
+			if la[off+k] != lb[k] {
+				return false
+			}
+		}
+		sa[i].Child, sb[i].Child = nil, nil
+	}
+	var ta, tb []*etree.Element
+	collectTag(x, "SegmentTemplate", &ta)
+	collectTag(y, "SegmentTemplate", &tb)
+	for _, t := range append(ta, tb...) {
+		t.RemoveAttr("startNumber")
+	}
+	return canonical(x) == canonical(y)
+}
+
 func panicKey(cls string, old, new *etree.Document) string {
 	if old != nil && new != nil && lopsidedLists(old.Root(), new.Root()) {
 		return "panic:" + cls + ":lopsided-lists"
@@ -571,7 +645,11 @@ func runL1(c *lib.Ctx, ls *lib.Livesim, id string, in c11in) (o l1obs) {
 			key := "425-but-changed:publishTime-differs"
 			if o.PT1 == o.PT2 {
 				// the two MPDs differ but carry the same publishTime: nothing the patch code can see
-				key = "425-but-changed:same-publishTime"
+				key = "425-but-changed:same-publishTime:other"
+				if windowStartOnly(d1.Root(), d2.Root()) {
+					// they differ solely at the old end of the timelines (segments left the time-shift window)
+					key = "425-but-changed:same-publishTime:window-start-only"
+				}
 			}
 			fail(regen+key, fmt.Sprintf("answer 425 but MPD(t2) differs from MPD(t1): %s", firstDiff(canonical(d1.Root()), canonical(d2.Root())))+regenWhy)
 		}
